@@ -281,6 +281,18 @@ def step (j : Json) : Json :=
         ("metadata", grpJson p.metadata),
         ("imagery", Json.arr (p.imagery.map (fun (n, g) => Json.arr #[Json.str n, imageGroupJson g])).toArray)])]
     | .error e => Json.mkObj [("err", Json.str e.name)]
+  | "to_dataset" =>
+    let vars := ((j.getObjValAs? (List String) "vars").toOption).getD []
+    let attrs : KVs Leaf := (getArr j "attrs").toList.map (fun a => match a with
+      | .arr xs => (((xs.getD 0 .null).getStr?).toOption.getD "",
+          match (xs.getD 1 .null) with
+          | .arr ys => PVal.list (ys.toList.map (fun y => PVal.cstr ((y.getStr?).toOption.getD "")))
+          | .str t => PVal.cstr t
+          | _ => PVal.cint 0)
+      | _ => ("", PVal.cint 0))
+    match toDatasetNames vars attrs with
+    | some d => Json.mkObj [("ok", Json.mkObj [("data_vars", toJson d.dataVars), ("coords", toJson d.coords), ("attrs", toJson (d.attrs.map Prod.fst))])]
+    | none => Json.mkObj [("err", Json.str "missing")]
   | "trailer" =>
     match readTrailer (unhex (getStr j "file")) with
     | .ok imgs => Json.mkObj [("ok", Json.arr (imgs.map (fun im => Json.arr (im.map (fun row => Json.arr (row.map (fun x => Json.str (toString x))).toArray)).toArray)).toArray)]
